@@ -7,15 +7,19 @@ operation at a time (props/listener_world.py).  Correspondence against Model/Lis
 Monitors (independent of the model): fragmentation independence, the documented automaton,
 an independent listener-side parser of the bytes the listener's stdin received, the
 at-most-one-outstanding / READY-only / event-returned rules, no escaping exception.
+Several pools (section "several pools" below; correspondence against Model/Pool.lean): a listener misbehaves while
+other pools -- same / other subscriptions, listeners of the same names or not -- go on: nothing reaches another
+listener's stdin, no other listener changes state, and the event goes back to the misbehaving listener's own pool only.
 """
 import itertools
-from props.listener_world import World, hexs, parse_stdin, DocAutomaton
+from props.listener_world import World, hexs, parse_stdin, DocAutomaton, DocTypes, PoolHistory
 
 ID = 'C10'
 LEAN_PROPS = 'SupervisorModel.Props.C10'
 DRIVER = 'drv_c10'
 GENERATED = ['Listener', 'Events', 'Pool']
 TRUSTED = [
+    "docs/events.rst of the tree under verification is the reference for which event types a pool is subscribed to (multi-pool monitors)",
     "modelled, not verified: CPython int(bytes) (Listener.parseInt: Py_ISSPACE strip, sign, digits with single "
     "underscores, 4300-digit limit) -- exercised against the real int() by the correspondence population",
     "the stdin pipe of a listener is simulated (capacity, broken); EPIPE is permanent once the read end is gone",
@@ -30,8 +34,11 @@ RULE = ("cases = listener scripts: per round READY / event sent / RESULT n + pay
         "faults (truncation, wrong token for the state, non-numeric / zero / negative / huge / underscored / signed / "
         "blank-padded lengths, trailing bytes, invalid UTF-8, early answers), pipe faults (capacity, EPIPE), process "
         "state changes, deaths and respawns; each script is run under several fragmentations of the listener's output "
-        "(whole, byte-wise, random cuts; all 2^(n-1) cuts for short streams).  non-trivial = at least one listener "
-        "state change; distinct = distinct canonical op lists")
+        "(whole, byte-wise, random cuts; all 2^(n-1) cuts for short streams); plus histories over 2-3 pools (1-2 listeners "
+        "each, listener names shared across pools or unique, disjoint / overlapping / equal subscriptions) in which one listener "
+        "at a time answers from the same grammar (whole or in two reads), dies (with or without unread bytes), has its pipe "
+        "filled or broken or is being stopped, and every pool makes a pass afterwards.  non-trivial = at least one listener "
+        "state change / one event handed over; distinct = distinct canonical op lists")
 
 READY = b'READY\n'
 
@@ -474,9 +481,205 @@ def fraglists_for(rng, segs, modes):
     return res
 
 
+# ---------------------------------------------------------------------------------------------
+# several pools: "... return its event to the pool, and never disturb another listener"
+# ---------------------------------------------------------------------------------------------
+# A listener misbehaves (FAIL, bad result line, bytes in the wrong state, handler error, death while BUSY) while other
+# pools -- subscribed to the same types, to other types, with listeners of the *same names* (process names need to be
+# unique within a group only) or not -- go about their business.  Histories are recorded by PoolHistory on the real
+# pools; the monitors below judge them in this property's terms.
+
+PEER_TYPES = [[['TICK_5'], ['TICK_60'], ['REMOTE_COMMUNICATION']], [['TICK_5'], ['TICK'], ['TICK_60']],
+              [['TICK'], ['PROCESS_STATE_FATAL'], ['EVENT']], [['TICK_5'], ['TICK_5'], ['TICK_60']],
+              [['PROCESS_LOG'], ['PROCESS_COMMUNICATION'], ['TICK']]]
+PEER_EMIT = ['TICK_5', 'TICK_5', 'TICK_60', 'REMOTE_COMMUNICATION', 'PROCESS_COMMUNICATION_STDOUT', 'PROCESS_LOG_STDERR']
+OKREADY = b'RESULT 2\nOKREADY\n'
+
+
+def gen_peers(rng):
+    """(handler, pools, names, ops)"""
+    npools = rng.choice([2, 2, 3])
+    nl = rng.choice([1, 1, 2])
+    sets = rng.choice(PEER_TYPES)
+    pools = [('p%d' % i, rng.randrange(1, 5), nl, sets[i]) for i in range(npools)]
+    ops, pid = [], 300
+    for pi in range(npools):
+        for li in range(nl):
+            pid += 1
+            ops += ['spawn %d %d %d' % (pi, li, pid), 'pstate %d %d running' % (pi, li), 'read %d %d %s' % (pi, li, READY.hex())]
+    k = 0
+    for _ in range(rng.randrange(2, 8)):
+        for _ in range(rng.choice([1, 1, 2])):
+            k += 1
+            ops.append('notify %s %s' % (rng.choice(PEER_EMIT), ('e%d' % k).encode().hex()))
+        for pi in range(npools):
+            ops.append('transition %d' % pi)
+        pi, li = rng.randrange(npools), rng.randrange(nl)
+        r = rng.random()
+        if r < 0.55:
+            # the answer of one listener, from the grammar of the single-listener scripts, whole or in two reads
+            data = rng.choice([b'RESULT 4\nFAIL', b'RESULT 4\nFAILREADY\n', gen_answer(rng), gen_answer(rng) + READY])
+            if len(data) > 1 and rng.random() < 0.3:
+                c = rng.randrange(1, len(data))
+                ops += ['read %d %d %s' % (pi, li, data[:c].hex()), 'read %d %d %s' % (pi, li, data[c:].hex())]
+            else:
+                ops.append('read %d %d %s' % (pi, li, hexs(data)))
+        elif r < 0.75:
+            pid += 1
+            if rng.random() < 0.3:
+                ops.append('pstate %d %d stopping' % (pi, li))
+            ops += ['die %d %d %s x' % (pi, li, hexs(rng.choice([b'', b'', gen_answer(rng)]))), 'spawn %d %d %d' % (pi, li, pid),
+                    'pstate %d %d running' % (pi, li), 'read %d %d %s' % (pi, li, READY.hex())]
+        elif r < 0.85:
+            ops.append(rng.choice(['cap %d %d 0' % (pi, li), 'cap %d %d 30' % (pi, li), 'breakpipe %d %d' % (pi, li),
+                                   'pstate %d %d stopping' % (pi, li), 'wev %d %d' % (pi, li)]))
+        else:
+            ops.append('read %d %d %s' % (pi, li, OKREADY.hex()))
+        # afterwards every pool makes a pass: nobody but the misbehaving listener's own pool has anything new to send
+        for qi in range(npools):
+            ops.append('transition %d' % qi)
+        if rng.random() < 0.5:
+            qi, qli = rng.randrange(npools), rng.randrange(nl)
+            ops += ['read %d %d %s' % (qi, qli, OKREADY.hex()), 'transition %d' % qi]
+    return rng.choice(['strict', 'default']), pools, rng.choice(['shared', 'shared', 'unique']), ops
+
+
+def peers_corpus():
+    up = ['spawn 0 0 11', 'pstate 0 0 running', 'read 0 0 ' + READY.hex(), 'spawn 1 0 12', 'pstate 1 0 running', 'read 1 0 ' + READY.hex()]
+    tick = 'notify TICK_5 ' + b'when:1000'.hex()
+    both = ['transition 0', 'transition 1']
+    res = []
+    for names in ('shared', 'unique'):
+        for bad in (['read 0 0 ' + b'RESULT 4\nFAIL'.hex()], ['read 0 0 ' + b'RESULT x\n'.hex()], ['read 0 0 ' + b'RESULT 3\nBAD'.hex()],
+                    ['die 0 0 - x'], ['read 0 0 ' + b'RESULT 4\n'.hex(), 'read 0 0 ' + b'FAIL'.hex()]):
+            # seeds C09-2 / C10-5: pool `states` is not subscribed to the tick its namesake in pool `ticks` rejects
+            res.append(('strict', [('ticks', 3, 1, ['TICK_5']), ('states', 3, 1, ['PROCESS_STATE_FATAL'])], names, up + [tick] + both + bad + both))
+            # ... or is subscribed to it as well, and has answered OK for it already
+            res.append(('strict', [('ticks', 3, 1, ['TICK_5']), ('ticks2', 3, 1, ['TICK'])], names,
+                        up + [tick] + both + ['read 1 0 ' + OKREADY.hex()] + bad + both))
+    return res
+
+
+def peers_monitor(h):
+    """judge a recorded history (PoolHistory) in C10's terms; returns [(kind, what)]"""
+    doc = DocTypes.get()
+    viol = []
+    npools = len(h.pools)
+    etype = {}                                    # event id -> registered type name
+    credit = [dict() for _ in range(npools)]      # pool -> {event: how many more times it may be handed to a listener of the pool}
+    last_return = {}                              # event -> pool whose listener gave it back last
+    for st in h.steps:
+        op, t = st['op'], st['op'].split()
+        if st['err'] != '-' and not st['err'].startswith('OSError:11'):
+            viol.append(('exception-escaped:' + st['err'].split(':')[0], 'op %r raised %s' % (op, st['err'])))
+        for evid, name in st['emitted']:
+            etype[evid] = name
+            for qi, (pname, bs, nl, types) in enumerate(h.pools):
+                if name is not None and doc.subscribed(types, name):
+                    credit[qi][evid] = credit[qi].get(evid, 0) + 1
+        actor = (int(t[1]), int(t[2])) if t[0] in ('read', 'die', 'wev', 'cap', 'breakpipe', 'pstate', 'spawn') else None
+        # (a) whatever one listener does or suffers changes no other listener: nothing is written to another listener's
+        #     stdin, no other listener changes state or gets / loses an event
+        if actor is not None:
+            for o in st['outs']:
+                f = o.split(':')
+                if f[0] in ('ls', 'w', 'h', 'rej') and tuple(int(x) for x in f[1].split('.')) != actor:
+                    viol.append(('another-listener-disturbed', '%r (listener %d.%d) caused %r' % (op, actor[0], actor[1], o)))
+            for qi in range(npools):
+                for qli in range(len(st['before'][qi])):
+                    if (qi, qli) != actor and st['before'][qi][qli] != st['after'][qi][qli]:
+                        viol.append(('another-listener-disturbed', '%r (listener %d.%d) changed listener %d.%d: %r -> %r' % (
+                            op, actor[0], actor[1], qi, qli, st['before'][qi][qli], st['after'][qi][qli])))
+        # (b) an event goes back to the pool of the listener that held it, and to no other: a listener is handed an event
+        #     only if its own pool is subscribed to the event's type and has it to give (emitted and not yet handed over,
+        #     or given back by a listener of this very pool)
+        for o in st['outs']:
+            f = o.split(':')
+            if f[0] == 'rej' and f[2].isdigit():
+                qi = int(f[1].split('.')[0])
+                if 0 <= qi < npools:
+                    credit[qi][int(f[2])] = credit[qi].get(int(f[2]), 0) + 1
+                    last_return[int(f[2])] = qi
+        for qi, qli, evid in st['sent']:
+            pname, bs, nl, types = h.pools[qi]
+            before = st['before'][qi][qli]
+            if before[0] != 'READY':
+                viol.append(('sent-when-not-ready', 'event %r handed to listener %d.%d in state %s during %r' % (evid, qi, qli, before[0], op)))
+            if before[1] != '-':
+                viol.append(('two-outstanding', 'event %r handed to listener %d.%d which still holds event %s (%r)' % (evid, qi, qli, before[1], op)))
+            name = etype.get(evid)
+            if name is None or not doc.subscribed(types, name):
+                viol.append(('listener-sent-event-of-unsubscribed-type',
+                             'listener %d.%d of pool %s (events=%s) was sent event %r of type %s during %r' % (
+                                 qi, qli, pname, ','.join(types), evid, name, op)))
+            elif credit[qi].get(evid, 0) <= 0:
+                other = last_return.get(evid)
+                if other is not None and other != qi:
+                    viol.append(('listener-sent-event-returned-in-another-pool',
+                                 'listener %d.%d of pool %s was sent event %r again during %r: it was given back by a listener of pool %s, not of this pool' % (
+                                     qi, qli, pname, evid, op, h.pools[other][0])))
+                else:
+                    viol.append(('listener-sent-event-twice', 'listener %d.%d of pool %s was sent event %r during %r although the pool had handed it over and no listener of the pool gave it back' % (
+                        qi, qli, pname, evid, op)))
+            credit[qi][evid] = credit[qi].get(evid, 0) - 1
+        # a listener put from BUSY into UNKNOWN, or reaped while it holds an event, gives the event back
+        if actor is not None and t[0] in ('read', 'die'):
+            held = st['before'][actor[0]][actor[1]][1]
+            gone = any(o == 'ls:%d.%d:BUSY>UNKNOWN' % actor for o in st['outs']) or (t[0] == 'die' and st['before'][actor[0]][actor[1]][0] == 'BUSY')
+            answered = any(o.startswith('h:%d.%d:' % actor) and o.endswith(':4f4b') for o in st['outs'])
+            if gone and held != '-' and not answered and not any(o == 'rej:%d.%d:%s' % (actor + (held,)) for o in st['outs']):
+                viol.append(('event-not-returned', 'listener %d.%d left the protocol during %r holding event %s, no EventRejectedEvent for it' % (actor + (op, held))))
+    # (c) every listener's stdin: whole envelopes of its own pool
+    for qi, (pname, bs, nl, types) in enumerate(h.pools):
+        for qli in range(nl):
+            for stream in h.stdin_streams(qi, qli):
+                envs, rest, good = parse_stdin(stream)
+                if not good:
+                    viol.append(('stdin-not-envelope-sequence', 'listener %d.%d: cannot cut %r into envelopes' % (qi, qli, rest[:40])))
+                for (serial, pool, pserial, evname, body) in envs:
+                    if pool != pname:
+                        viol.append(('envelope-of-other-pool', 'listener of %s received an envelope of pool %s' % (pname, pool)))
+                    if not doc.subscribed(types, evname):
+                        viol.append(('listener-sent-event-of-unsubscribed-type', 'listener %d.%d of pool %s (events=%s) received an envelope with eventname:%s' % (
+                            qi, qli, pname, ','.join(types), evname)))
+    return viol
+
+
+def peers_case(ctx, handler, pools, names, ops, cases, impls):
+    h = PoolHistory(handler, pools, names=names)
+    for op in ops:
+        h.do(op)
+    viol = peers_monitor(h)
+    cases.append((h.case_line(), h.ops))
+    impls.append(h.lines)
+    ctx.case_done(('peers', handler, names, tuple(h.ops)), any(st['sent'] for st in h.steps))
+    ctx.count('peers:names:' + names)
+    ctx.count('peers:events-handed-over', sum(len(st['sent']) for st in h.steps))
+    ctx.count('peers:events-given-back', sum(1 for st in h.steps for o in st['outs'] if o.startswith('rej:')))
+    seen = set()
+    for kind, what in viol:
+        if kind in seen:
+            continue
+        seen.add(kind)
+        ctx.violation(kind, what, {'what': 'peers', 'handler': handler, 'names': names, 'pools': [list(p) for p in pools], 'ops': h.ops})
+
+
+def run_peers(ctx):
+    rng = ctx.rng
+    cases, impls = [], []
+    for handler, pools, names, ops in peers_corpus():
+        peers_case(ctx, handler, pools, names, ops, cases, impls)
+    for _ in range(ctx.n(120, 2000)):
+        handler, pools, names, ops = gen_peers(rng)
+        peers_case(ctx, handler, pools, names, ops, cases, impls)
+    ctx.sample({'case': cases[0][0], 'ops': cases[0][1][:12], 'impl': impls[0][:12]})
+    ctx.correspond('pool', cases, impls)
+
+
 def run(ctx):
     rng = ctx.rng
     cases, impls = [], []
+    run_peers(ctx)
     for handler, segs in corpus():
         check_script(ctx, handler, segs, fraglists_for(rng, segs, ['whole', 'bytes', 'random']), cases, impls)
     # exhaustive fragmentations of short token streams, from each of the four listener states
@@ -551,6 +754,11 @@ def ops_to_segs(ops):
 def replay(ctx, data):
     inp = data['input']
     cases, impls = [], []
+    if inp.get('what') == 'peers':
+        ops = [' '.join(o.split()[:4]) + ' x' if o.startswith('die') else ' '.join(o.split()[:4]) if o.startswith('spawn') else o for o in inp['ops']]
+        peers_case(ctx, inp['handler'], [tuple(p[:3]) + (p[3],) for p in inp['pools']], inp['names'], ops, cases, impls)
+        ctx.correspond('pool', cases, impls)
+        return
     segs = ops_to_segs(inp['ops'])
     check_script(ctx, inp['handler'], segs, fraglists_for(ctx.rng, segs, ['whole']), cases, impls)
     if 'ops_whole' in inp:
@@ -568,7 +776,9 @@ def replay(ctx, data):
 TECHNIQUE = ("Lean 4 theorems (induction over operation lists, fragmentation invariance of the token parser, refinement "
              "to the documented automaton) over a model whose guards/slices/tokens/state codes are regenerated from "
              "dispatchers.py, process.py, states.py; differential correspondence against the real dispatchers")
-LEVEL_TEXT = ("the parser's fragmentation invariance, termination, the at-most-one-outstanding and envelope-contiguity "
+LEVEL_TEXT = ("never_disturbs_another_pool: for pools of distinct process objects (names may coincide) nothing a listener does changes "
+              "another pool, at every moment of every history (the owner test of handle_rejected is regenerated from the source); "
+              "the parser's fragmentation invariance, termination, the at-most-one-outstanding and envelope-contiguity "
               "invariants hold for every byte stream / operation list (no bound); the definitions they unfold are "
               "regenerated from /repo on each run and the model is run against the real objects on grammar-based scripts "
               "under several fragmentations")
